@@ -8,6 +8,9 @@ import json
 from typing import Any
 
 
+XML_SPACE_KEY = 'http://www.w3.org/XML/1998/namespace space'    # wn.lmf.load's key for xml:space
+
+
 def canon(x: Any, key: str = '') -> Any:
     """Canonical form applied to *both* sides of every resource comparison.
 
@@ -20,6 +23,9 @@ def canon(x: Any, key: str = '') -> Any:
         out = {}
         for k, v in x.items():
             if k in ('lexicalized', 'phonemic') and v is True:
+                continue
+            if k in ('space', XML_SPACE_KEY):
+                # the flag says how the text was written; what is compared is the text
                 continue
             if k == 'external' and not v:
                 continue
@@ -83,7 +89,22 @@ def project(res: dict, target: str) -> dict:
             if is_v10(target):
                 ss.pop('members', None)
                 ss.pop('lexfile', None)
+    if target != '1.3':
+        # only 1.3 has xml:space: elsewhere the text comes back white-space normalised
+        _normalise_preserved(out)
     return out
+
+
+def _normalise_preserved(x: Any) -> None:
+    if isinstance(x, dict):
+        if x.get('space') == 'preserve' and isinstance(x.get('text'), str):
+            x['text'] = ' '.join(x['text'].split())
+            x.pop('space')
+        for v in x.values():
+            _normalise_preserved(v)
+    elif isinstance(x, list):
+        for v in x:
+            _normalise_preserved(v)
 
 
 def strip_example_meta(res: dict) -> dict:
